@@ -24,6 +24,27 @@ type recPublisher struct {
 	events []string
 	fail   bool
 	chans  map[string]int
+	// kept: the payload slices exactly as handed over, next to a copy taken at that moment. The production publisher
+	// (centrifuge's broker) keeps the slice it is given — history and recovery of the 'headers' channel are served
+	// from it — so the bytes belong to the publisher from the call on.
+	kept []keptPayload
+}
+
+type keptPayload struct {
+	raw  []byte
+	then string
+}
+
+// modified returns the first published payload whose bytes changed after publication.
+func (p *recPublisher) modified() (int, string, string, bool) {
+	p.mu.Lock()
+	defer p.mu.Unlock()
+	for i, k := range p.kept {
+		if string(k.raw) != k.then {
+			return i, k.then, string(k.raw), true
+		}
+	}
+	return 0, "", "", false
 }
 
 func (p *recPublisher) Publish(channel string, data []byte, _ ...centrifuge.PublishOption) (centrifuge.PublishResult, error) {
@@ -33,6 +54,7 @@ func (p *recPublisher) Publish(channel string, data []byte, _ ...centrifuge.Publ
 		p.chans = map[string]int{}
 	}
 	p.chans[channel]++
+	p.kept = append(p.kept, keptPayload{raw: data, then: string(data)})
 	var ev struct {
 		Operation string `json:"operation"`
 		Header    struct {
@@ -318,6 +340,9 @@ func runC11(c *Ctx) error {
 		st2.Close()
 		if prod != nil {
 			prod.name, prod.ops, prod.want, prod.started = name+" (production webhook client)", append([]string{}, ops...), append([]string{}, expected...), time.Now()
+		}
+		if i, then, now, bad := pubOK.modified(); bad {
+			fail(fmt.Sprintf("the payload of websocket event #%d was modified after it had been handed to the publisher (the broker keeps it for the channel's history and recovery: a client that reconnects is served the altered bytes instead of the event)", i+1), then, now, "c11-events:websocket-payload-modified-after-publish")
 		}
 		for ch, n := range pubOK.chans {
 			if ch != "headers" {
